@@ -1,0 +1,15 @@
+//go:build verif
+
+package dkls23
+
+// Contracts for the deductive checker in /verif (comment-only; compiled only under the verif tag).
+
+// DKLs23 aggregation releases a signature only after the library's own ECDSA verifier accepted exactly that
+// signature for the given public key and message, and only if all partial signatures carry the same nonce point.
+//@ func Aggregate
+//@   property C01, C04
+//@   opt trustpre=on
+//@   ensures err == nil ==> exists v *sigecdsa.Verifier :: v.Verify(result, publicKey, message) == nil
+//@   ensures err == nil ==> len(partialSignatures) > 0 && (forall t int :: 0 <= t && t < len(partialSignatures) ==> partialSignatures[t].r.Equal(partialSignatures[0].r))
+//@   loop range(partialSignatures)
+//@     invariant forall t int :: 0 <= t && t < i ==> partialSignatures[t].r.Equal(r)
